@@ -83,6 +83,17 @@ class MyConv2d(nn.Conv2d):
 ACTS = {'relu': nn.ReLU, 'tanh': nn.Tanh, 'none': None, 'sigmoid': nn.Sigmoid}
 
 
+class AliasBox(nn.Module):
+    """Holds a reference to a module that is used elsewhere in the model; identity in the forward pass."""
+
+    def __init__(self, m):
+        super().__init__()
+        self.m = m
+
+    def forward(self, x):
+        return x
+
+
 def build_model(spec, dtype=torch.float32):
     """spec['layers'] is a list of layer dicts; returns nn.Sequential with modules named by index.
 
@@ -120,8 +131,18 @@ def build_model(spec, dtype=torch.float32):
         else:
             raise ValueError(t)
         mods.append(m)
+    al = spec.get('alias')
+    if al is not None and 0 <= al['of'] < len(mods) and spec['layers'][al['of']]['t'] in ('linear', 'conv'):
+        # the very same module object is ALSO reachable through an inert holder (identity forward, never calls it): 'k' and 'N.m', or,
+        # with first=True, '0.m' and 'k+1' - named_modules() reports a shared module once, under the first of its names
+        box = AliasBox(mods[al['of']])
+        seq = [box] + mods if al.get('first') else mods + [box]
+    else:
+        al, seq = None, mods
     nest = spec.get('nest_from')
-    if nest is not None and 0 < nest < len(mods):
+    if al is not None:
+        model = nn.Sequential(*seq)
+    elif nest is not None and 0 < nest < len(mods):
         # the tail of the chain inside an inner Sequential: module names '0', ..., then 'i.0', 'i.1', ... ('0' is a dotted suffix of 'i.0')
         model = nn.Sequential(*mods[:nest], nn.Sequential(*mods[nest:]))
     else:
